@@ -96,7 +96,7 @@ theorem quoted_newlines_counted (q : Char) (hq : q = '"' ∨ q = '\'') (r conten
   have hf : scanFloat (q :: r) = none := by
     rcases hq with rfl | rfl
     · exact scanFloat_q r
-    · unfold scanFloat optSign spanDigits; simp [List.span, List.span.loop, isDig]
+    · unfold scanFloat scanMantissa optSign spanDigits; simp [List.span, List.span.loop, isDig]
   have hi : scanInt (q :: r) = none := by
     rcases hq with rfl | rfl
     · exact scanInt_q r
@@ -105,7 +105,7 @@ theorem quoted_newlines_counted (q : Char) (hq : q = '"' ∨ q = '\'') (r conten
   simp only [hid, Bool.false_eq_true, if_false, hf, hi, hqq, if_true, hs, hv]
 where
   scanFloat_q (l : List Char) : scanFloat ('"' :: l) = none := by
-    unfold scanFloat optSign spanDigits; simp [List.span, List.span.loop, isDig]
+    unfold scanFloat scanMantissa optSign spanDigits; simp [List.span, List.span.loop, isDig]
   scanInt_q (l : List Char) : scanInt ('"' :: l) = none := by
     unfold scanInt optSign spanDigits; simp [List.span, List.span.loop, isDig]
 
